@@ -29,6 +29,11 @@
 #include "romea_core_common/diagnostic/CheckupLowerThan.hpp"
 #include "romea_core_common/diagnostic/CheckupReliability.hpp"
 #include "romea_core_common/diagnostic/DiagnosticReport.hpp"
+#include "romea_core_common/geodesy/GeodeticCoordinates.hpp"
+#include "romea_core_common/geodesy/WGS84Coordinates.hpp"
+#include <iomanip>
+#include <optional>
+#include <sstream>
 #include "vh.hpp"
 
 using romea::core::Checkup;
@@ -438,6 +443,60 @@ template<class T> static T gen_value(vh::Rng & r, const Setup<T> & s, int kind, 
 }
 
 // ------------------------------------------------------------------------------------------
+// Calls to neighbouring library facilities that could share hidden per-thread / global state with
+// the check-ups' value printing: setReportInfo / toStringInfoValue with every other type the
+// library can print (WGS84 / geodetic coordinates, whose operator<< changes the stream precision,
+// statuses, diagnostics, optionals, strings, ints, doubles with many digits) on a scratch report,
+// plus streaming to a local stream with manipulators.  Nothing is asserted about the scratch
+// objects; the check-up evaluated afterwards must be unaffected.
+// ------------------------------------------------------------------------------------------
+static bool g_neighbours_called_in_process = false;
+
+static void neighbour_calls(vh::Rng & r)
+{
+  using namespace romea::core;
+  DiagnosticReport scratch;
+  int n = (int)r.range(1, 4);
+  for (int i = 0; i < n; ++i) {
+    switch ((int)r.range(0, 9)) {
+      case 0: case 1: {
+          WGS84Coordinates w = makeWGS84Coordinates(r.uni(-1.5, 1.5), r.uni(-3.1, 3.1));
+          setReportInfo(scratch, "position", w);
+          std::ostringstream os; os << w << std::hexfloat << std::showpos << std::uppercase << 1.5;
+          cat("interleaved_wgs84_print");
+          break;
+        }
+      case 2: {
+          GeodeticCoordinates g = makeGeodeticCoordinates(r.uni(-1.5, 1.5), r.uni(-3.1, 3.1), r.uni(-100.0, 9000.0));
+          (void)toStringInfoValue(g);
+          setReportInfo(scratch, "geodetic", std::optional<GeodeticCoordinates>(g));
+          cat("interleaved_wgs84_print");
+          break;
+        }
+      case 3: setReportInfo(scratch, "many_digits", 1.2345678901234567 * r.logu(1e-8, 1e8)); break;
+      case 4: setReportInfo(scratch, "opt", r.coin() ? std::optional<double>(r.uni() * 1e-5) : std::optional<double>()); break;
+      case 5: setReportInfo(scratch, "text", std::string("some text")); setReportInfo(scratch, "int", (int)r.range(-100000, 100000)); break;
+      case 6: setReportInfo(scratch, "status", ST[r.range(0, 3)]); (void)toStringInfoValue(Diagnostic(ST[r.range(0, 3)], "m")); break;
+      case 7: {std::ostringstream os; os << scratch; (void)toStringInfoValue(true); (void)toStringInfoValue('c'); break;}
+      case 8: (void)toStringInfoValue((float)r.uni() * 1e9f); (void)toStringInfoValue((long double)r.uni()); break;
+      default: setReportInfo(scratch, "huge", r.sign() * r.logu(1e-300, 1e300)); (void)toStringInfoValue((unsigned long long)r.next()); break;
+    }
+  }
+  cat("interleaved_neighbour_printing");
+  g_neighbours_called_in_process = true;
+}
+
+template<class T> static void after_neighbours_cat(T v)
+{
+  if (!g_neighbours_called_in_process) {return;}
+  if constexpr (!std::is_same<T, int>::value) {
+    char a[64], b[64];
+    snprintf(a, sizeof a, "%g", (double)v); snprintf(b, sizeof b, "%.10g", (double)v);
+    if (std::strcmp(a, b) != 0) {cat("eval_after_neighbour_printing_needing_7plus_digits");}
+  }
+}
+
+// ------------------------------------------------------------------------------------------
 // Near-duplicate successor of the previously evaluated value: consecutive inputs that compare
 // equal but print differently (+0.0 / -0.0), the same value again, the adjacent representable
 // values, and the value +- a log-spaced delta.  An implementation that caches anything derived
@@ -523,11 +582,13 @@ template<class T> static void threshold_case(vh::Ctx & c, vh::Rng & r, int kind)
       continue;
     }
     int tag, fu = FU_NONE;
+    if (r.coin(0.12)) {neighbour_calls(r);}
     T v = gen_value<T>(r, s, kind, tag);
     if (have_prev && r.coin(0.35)) {fu = followup_value<T>(r, prev, v); tag = TAG_OTHER; nontrivial = true;}
     followup_cat(fu);
     prev = v; have_prev = true;
     d.steps.push_back({0, (LD)v, tag});
+    after_neighbours_cat<T>(v);
     DiagnosticStatus ret = chk->evaluate(v);
     DiagnosticReport rep = chk->getReport();
     int acc = acceptable(kind, (LD)v, d.lo, d.hi, d.band);
@@ -593,6 +654,8 @@ static void reliability_case(vh::Ctx & c, vh::Rng & r)
     if (i > 0 && r.coin(0.35)) {followup_cat(followup_value<double>(r, prev, v)); tag = TAG_OTHER; nontrivial = true;}
     prev = v;
     d.steps.push_back({0, (LD)v, tag});
+    if (r.coin(0.12)) {neighbour_calls(r);}
+    after_neighbours_cat<double>(v);
     DiagnosticStatus ret = chk.evaluate(v);
     DiagnosticReport rep = chk.getReport();
     int acc = v < low ? V_LOW : (v < high ? V_UNCERTAIN : V_OK);
@@ -708,6 +771,8 @@ static void list_case(vh::Ctx & c, vh::Rng & r)
 // ------------------------------------------------------------------------------------------
 // report append
 // ------------------------------------------------------------------------------------------
+static DiagnosticReport copy_of(const DiagnosticReport & x) {return x;}
+
 static void append_case(vh::Ctx & c, vh::Rng & r)
 {
   c.cat("report_append");
@@ -715,13 +780,14 @@ static void append_case(vh::Ctx & c, vh::Rng & r)
   int nrep = (int)r.range(1, 4);
   bool small_pool = r.coin(0.6);
   DiagnosticReport acc;
-  if (r.coin(0.3)) {
-    // non-empty left operand to start with
-    int nd = (int)r.range(0, 5);
+  {
+    // left operand to start with, in one of the four states {no diagnostics, diagnostics} x {no info, info}
+    int state = (int)r.range(0, 3);
+    int nd = (state & 1) ? (int)r.range(1, 5) : 0;
     for (int i = 0; i < nd; ++i) {acc.diagnostics.emplace_back(ST[r.range(0, 3)], "L" + std::to_string(i));}
-    int ni = (int)r.range(0, 4);
+    int ni = (state & 2) ? (int)r.range(1, 4) : 0;
     for (int i = 0; i < ni; ++i) {acc.info[KEYS[r.range(0, small_pool ? 4 : 11)]] = "L" + std::to_string(i);}
-    c.cat("append_nonempty_left");
+    if (state) {c.cat("append_nonempty_left");}
   }
   // model
   std::vector<std::pair<int, std::string>> mdiag;
@@ -738,13 +804,38 @@ static void append_case(vh::Ctx & c, vh::Rng & r)
     for (int i = 0; i < nd; ++i) {
       rk.diagnostics.emplace_back(ST[r.range(0, 3)], "r" + std::to_string(k) + "d" + std::to_string(i));
     }
+    const int nd0 = nd;
     int ni = (int)r.range(0, 6);
     for (int i = 0; i < ni; ++i) {
       rk.info[KEYS[r.range(0, small_pool ? 4 : 11)]] = "r" + std::to_string(k) + "v" + std::to_string(i);
     }
     total += nd;
+    // value category of the right-hand side: lvalue, const lvalue, temporary returned by a function,
+    // std::move'd object, or the report returned by a real check-up's getReport()
+    int rhs = (int)r.range(0, 4);
+    std::unique_ptr<CheckupGreaterThan<double>> chk;
+    if (rhs == 4) {
+      chk.reset(new CheckupGreaterThan<double>(KEYS[r.range(0, small_pool ? 4 : 11)], r.uni(-1.0, 1.0), 0.125));
+      if (r.coin(0.8)) {chk->evaluate(r.uni(-2.0, 2.0));}
+      rk = chk->getReport(); nd = (int)rk.diagnostics.size(); total += nd - nd0;
+    }
     const DiagnosticReport rk_before = rk;
-    DiagnosticReport & ret = (acc += rk);
+    static const char * LEFT[] = {"append_left_empty", "append_left_diagnostics_no_info", "append_left_info_no_diagnostics",
+      "append_left_diagnostics_and_info"};
+    int lstate = (acc.diagnostics.empty() ? 0 : 1) | (acc.info.empty() ? 0 : 2);
+    c.cat(LEFT[lstate]);
+    bool overlap = false;
+    for (auto & kv : rk_before.info) {if (acc.info.count(kv.first)) {overlap = true;}}
+    if (rhs >= 2 && lstate == 2) {c.cat("append_rvalue_onto_info_only_left"); if (overlap) {c.cat("append_rvalue_onto_info_only_left_shared_keys");}}
+    DiagnosticReport * retp;
+    switch (rhs) {
+      case 0: retp = &(acc += rk); c.cat("append_rhs_lvalue"); break;
+      case 1: retp = &(acc += rk_before); c.cat("append_rhs_const_lvalue"); break;
+      case 2: retp = &(acc += copy_of(rk_before)); c.cat("append_rhs_temporary"); break;
+      case 3: retp = &(acc += std::move(rk)); c.cat("append_rhs_moved"); break;
+      default: retp = &(acc += chk->getReport()); c.cat("append_rhs_checkup_report"); break;
+    }
+    DiagnosticReport & ret = *retp;
     // model update
     for (auto & dgn : rk_before.diagnostics) {mdiag.emplace_back(rank_of(dgn.status), dgn.message);}
     bool dup = false;
@@ -753,12 +844,13 @@ static void append_case(vh::Ctx & c, vh::Rng & r)
       if (it != minfo.end()) {dup = true; it->second.insert(kv.second);} else {minfo[kv.first].insert(kv.second);}
     }
     if (dup) {dup_seen = true;}
-    desc += (k ? "," : "") + vh::J().f("diagnostics", nd).f("info", (int)rk_before.info.size()).boolean("duplicate_keys", dup).str();
-    h = vh::hash_addi(vh::hash_addi(h, nd), rk_before.info.size() * 2 + dup);
+    desc += (k ? "," : "") + vh::J().f("diagnostics", nd).f("info", (int)rk_before.info.size()).boolean("duplicate_keys", dup)
+      .f("rhs_value_category", rhs).f("left_state", lstate).str();
+    h = vh::hash_addi(vh::hash_addi(h, nd), (rk_before.info.size() * 2 + dup) * 64 + rhs * 4 + lstate);
 
     auto params = [&]() {
         return vh::Params{{"operand", (double)k}, {"n_left", (double)(mdiag.size() - nd)}, {"n_right", (double)nd},
-          {"duplicate_keys", dup ? 1.0 : 0.0}};
+          {"duplicate_keys", dup ? 1.0 : 0.0}, {"rhs_value_category", (double)rhs}, {"left_state", (double)lstate}};
       };
     auto wit = [&]() {
         std::string got = "[";
@@ -792,8 +884,10 @@ static void append_case(vh::Ctx & c, vh::Rng & r)
     // by later appends of other keys)
     if (iok) {for (auto & kv : acc.info) {minfo[kv.first] = {kv.second};}}
     // right operand untouched
-    bool rok = rk.diagnostics.size() == rk_before.diagnostics.size() && rk.info == rk_before.info;
-    c.expect("append.right_operand_unchanged", rok, "append_diagnostics", params, wit);
+    if (rhs <= 1) {
+      bool rok = rk.diagnostics.size() == rk_before.diagnostics.size() && rk.info == rk_before.info;
+      c.expect("append.right_operand_unchanged", rok, "append_diagnostics", params, wit);
+    }
   }
   desc += "]";
   if (!acc.diagnostics.empty()) {
